@@ -116,7 +116,9 @@ PARTIAL = (
     "ids (a card with id 0 redefines the basic system: the model answers `diverges`) and say nothing about the order "
     "of the dictionary *within* one level (numpy's argsort is not stable above 16 cards; the correspondence compares "
     "the level order only); all geometry theorems are over the reals: at the polar axis the real atan2(0, 0) = 0 while "
-    "the floating-point atan2 of signed zeros may answer +-180 (the same point; measured exactly by the axis worlds), "
+    "the floating-point atan2 of two signed zeros answers 0 or +-180 depending on the signs (the same point; which sign "
+    "a zero sum gets depends on the library's summation order, so these undefined angles are compared modulo 180 in "
+    "the axis worlds, everything else there to 1e-12), "
     "and the exact values at azimuths k*90 deg are reproduced by the code to 1e-12 (measured), not bit for bit; "
     "round-off in general is measured by the correspondence, never proved"
 )
@@ -163,8 +165,9 @@ MANIFEST = {
     "boundaries, grids exactly on the polar axis (1e-12) and card sets up to 24 with chains 8 deep.",
     "level_note": "Trusted: Lean kernel; propext, Classical.choice, Quot.sound; the Python harness; libm/LAPACK "
     "agreement with the Float model is measured. Exact solver / invertible UM block / full column rank / distinct "
-    "DOF / positive ids are hypotheses. Floating-point behaviour at the polar axis (signed zeros in atan2) and the "
-    "1e-12 agreement with the exact quarter-turn values are measured by the axis worlds, not proved.",
+    "DOF / positive ids are hypotheses. Floating-point behaviour at the polar axis (atan2 of signed zeros: the undefined azimuth is "
+    "compared modulo 180) and the 1e-12 agreement with the exact quarter-turn values are measured by the axis worlds, "
+    "not proved.",
     "technique": "Lean 4 proof over ℝ / any field of polymorphic executable models + numeric and exact differential "
     "correspondence at Float + ast translator for the constants",
 }
@@ -601,6 +604,21 @@ def _plan_world(ctx, rng, w, items):
             for e, p in zip(gents, plocs):
                 if _rho(kt, ko, kT, p) == 0.0:
                     ctx.count("get:%s-exactly-on-axis" % ("cyl" if kt == 2 else "sph"))
+
+            def undefined_angles(kt=kt, ko=ko, kT=kT):
+                """(row, column) of the angles that have no meaning: the azimuth of a point exactly on the polar
+                axis, and the polar angle too at the origin of a spherical system.  There the code takes atan2 of two
+                zeros, whose answer (0 or +-180) depends on the signs of the zeros, i.e. on whether the library sums
+                a dot product from +0 (BLAS) or from its first term (the model): compared modulo 180."""
+                out = []
+                for r, p in enumerate(plocs):
+                    if _rho(kt, ko, kT, p) == 0.0:
+                        out.append((r, 1 if kt == 2 else 2))
+                        if kt == 3 and np.all(kT.T @ (p - ko) == 0.0):
+                            out.append((r, 1))
+                return out
+
+            skip_get.undefined_angles = undefined_angles
 
         ang = None if kt == 1 else ([1] if kt == 2 else [1, 2])
         br = "get:typ%d" % kt
@@ -1621,6 +1639,14 @@ def correspondence(ctx):
                     got = got[~sk]
                     model = model[~sk]
             sc = _scale(w)
+            if skipf is not None and hasattr(skipf, "undefined_angles"):
+                keep = np.nonzero(~skipf())[0].tolist()
+                for r, c in skipf.undefined_angles():
+                    if r in keep:
+                        rr = keep.index(r)
+                        got[rr, c] = min(got[rr, c] % 180.0, 180.0 - got[rr, c] % 180.0)
+                        model[rr, c] = min(model[rr, c] % 180.0, 180.0 - model[rr, c] % 180.0)
+                        ctx.count("get:undefined-angle-compared-mod-180")
             if w.get("axis"):
                 sc *= TOL_AXIS / TOL  # exact geometry (signed-permutation transforms, integer points): 1e-12
             ok, err = _close(got, model, sc, ang)
